@@ -970,6 +970,12 @@ class Interp:
                 r = self._repo_dunder(b, a, name[1], only_if_defined=True)
                 if r is not NotImplemented:
                     return r
+        elif name is not None and not is_sym(b):
+            # symbolic scalar (op) repository object: int.__op__ declines,
+            # Python then calls the object's reflected operator
+            r = self._repo_dunder(b, a, name[1], only_if_defined=True)
+            if r is not NotImplemented:
+                return r
         return _BINOPS[optype](a, b)
 
     def _repo_dunder(self, a, b, name, only_if_defined=False):
